@@ -94,7 +94,9 @@ struct bresenham_line_rasterizer
             // transpose coordinate system back to proper form if needed
             *d_first++ = needs_flip ? point_t{y, x} : point_t{x, y};
             error_term += slope;
-            if (error_term >= 0.5)
+            // the slope is that of the pixel extents, slightly steeper than the segment's:
+            // do not step past the end point's row
+            if (error_term >= 0.5 && y != end.y)
             {
                 --error_term;
                 y += y_increment;
